@@ -118,7 +118,7 @@ func BatchHash(b *lib.DexBatch) []byte {
 // CheckBlock is the transition oracle.
 func CheckBlock(in *BlockInput) *Report {
 	rep := &Report{Stats: map[string]int{}}
-	exp := ledger{}    // expected balance change per account
+	exp := ledger{} // expected balance change per account
 	roles := map[string]string{}
 	role := func(addr []byte, r string, prio bool) {
 		if _, ok := roles[string(addr)]; !ok || prio {
@@ -500,10 +500,10 @@ func replayDex(in *BlockInput, c uint64, exp ledger, holdIn *big.Int, rep *Repor
 	}
 	idxLocal := 0
 	type group struct {
-		active      bool
-		local       bool
-		D, M, T0    *big.Int
-		x0, y0      *big.Int
+		active   bool
+		local    bool
+		D, M, T0 *big.Int
+		x0, y0   *big.Int
 	}
 	var g group
 	closeGroup := func() {
